@@ -9,7 +9,14 @@ pub struct Writer<'a> {
 }
 
 impl<'a> Writer<'a> {
+    #[cfg(not(feature = "verif_small_buf"))]
     const BUF_SIZE: usize = 1 << 16;
+    /// verification hook: tiny buffer so that flush boundaries are exercised exhaustively
+    #[cfg(feature = "verif_small_buf")]
+    const BUF_SIZE: usize = 8;
+    /// verification hook: the internal buffer size
+    #[cfg(feature = "verif")]
+    pub const VERIF_BUF_SIZE: usize = Writer::BUF_SIZE;
 
     pub fn new(stdout: Box<dyn Write + 'a>) -> Self {
         Self {
